@@ -302,8 +302,20 @@ def gen_failure():
     need(len(ifs) == 1 and U(ifs[0].test) == "not self.broker._expose_remote_exception_types" and not ifs[0].orelse
          and U(ifs[0].body[0]) == "f = wrap_remote_failure(f)" and U(rc.body[-2]) == "self.request.fail(f)",
          "ErrorUnslicer.receiveClose changed")
-    need(U(P.find_def(mod, "wrap_remote_failure").body[-1]) == "return failure.Failure(tokens.RemoteException(f))",
-         "wrap_remote_failure changed")
+    wb = [U(x) for x in P.find_def(mod, "wrap_remote_failure").body if not (isinstance(x, ast.Expr) and isinstance(x.value, ast.Constant))]
+    need(wb and wb[-1] == "return failure.Failure(tokens.RemoteException(f))", "wrap_remote_failure changed")
+    if len(wb) == 1:
+        uncond = True
+    elif len(wb) == 2 and wb[0] == "if f.check(tokens.RemoteException):\n    return f":
+        uncond = False          # a failure whose (remote) class already is RemoteException is passed through unwrapped
+    else:
+        raise P.Untranslatable("wrap_remote_failure does something the model does not know: %s" % wb[:-1])
+    out.append("Definition wrap_is_unconditional : bool := %s.   (* wrap_remote_failure wraps every failure, whatever its class *)"
+               % ("true" if uncond else "false"))
+    tk = P.load("tokens.py")
+    need(isinstance(P.find_def(tk, "RemoteException"), ast.ClassDef), "tokens.RemoteException is gone")
+    out.append("Definition remote_exception_name : list Z := %s.   (* reflect.qual(tokens.RemoteException), UTF-8 *)"
+               % zlist(list(b"foolscap.tokens.RemoteException")))
     out.append("Definition wrap_when_expose_is : bool := false.   (* `if not broker._expose_remote_exception_types: f = wrap_remote_failure(f)` *)")
     return "\n\n".join(out) + "\n"
 
@@ -440,6 +452,20 @@ def gen_send():
     out.append("Definition recv_counts_rejected_opens : bool := %s.   (* handleData advances objectCounter for an OPEN %s *)"
                % ("true", "whether or not it is being discarded") if counts_rejected else
                "Definition recv_counts_rejected_opens : bool := false.   (* handleData advances objectCounter only `if not rejected` *)")
+    # the callee's inbound delivery queue (Broker.doNextCall): the head delivery is waited for; when its ready_deferred
+    # fires -- callback OR errback -- the waiting flag must be cleared and the next delivery scheduled
+    dn = P.find_def(br, "Broker.doNextCall")
+    rd = [n for n in dn.body if isinstance(n, ast.FunctionDef) and n.name == "_ready"]
+    need(len(rd) == 1, "doNextCall: no inner _ready")
+    rb = [U(x) for x in rd[0].body]
+    need(rb[:2] == ["self._waiting_for_call_to_be_ready = False", "eventually(self.doNextCall)"], "doNextCall._ready changed: %s" % rb)
+    adds = [U(n.value) for n in dn.body if isinstance(n, ast.Expr) and isinstance(n.value, ast.Call) and U(n.value.func).startswith("d.add")]
+    need(adds and adds[0] in ("d.addBoth(_ready)", "d.addCallback(_ready)"), "doNextCall: _ready is attached with %s" % adds[:1])
+    need(adds[-2:] == ["d.addErrback(self.callFailed, delivery.reqID, delivery)", "d.addErrback(log.err)"] and
+         "d.addCallback(self._callFinished, delivery)" in adds, "doNextCall: the answer/error chain changed: %s" % adds)
+    need("self._waiting_for_call_to_be_ready = True" in [U(x) for x in dn.body] and
+         "if self._waiting_for_call_to_be_ready:\n    return" in [U(x) for x in dn.body], "doNextCall: waiting flag handling changed")
+    out.append("Definition ready_flag_cleared_on_failure : bool := %s.   (* %s *)" % ("true" if adds[0] == "d.addBoth(_ready)" else "false", adds[0]))
     # receive side: a Violation inside a top-level PB sequence makes every unslicer up to the root give the sequence up
     # (reportViolation returns the failure; only the PBRootUnslicer absorbs), so exactly the rest of that one object is
     # discarded.  An unslicer that absorbs stays on the stack and is handed the tokens of the NEXT object.
